@@ -14,6 +14,7 @@ from .interp import Interp, World, PyRaise, JUMPED
 from .world import Cloner, Keyer
 from . import models as MD
 from . import prelude
+from .mdd import MDD, TRUE as MDD_TRUE, FALSE as MDD_FALSE
 
 
 class Budget(Exception):
@@ -29,6 +30,48 @@ class GNode:
 
     def __deepcopy__(self, memo):
         return self
+
+
+def cube_key(c):
+    return tuple(sorted((v.idx, d) for v, d in c.items()))
+
+
+def simplify_cubes(cubes):
+    """exact simplification of a union of cubes: drop duplicates, join cubes that differ in the
+    domain of exactly one variable"""
+    cur = {}
+    for c in cubes:
+        cur[cube_key(c)] = c
+    changed = True
+    while changed and len(cur) > 1:
+        changed = False
+        vars_ = set()
+        for c in cur.values():
+            vars_ |= set(c)
+        for var in sorted(vars_, key=lambda v: v.idx):
+            groups = {}
+            for k, c in cur.items():
+                rest = tuple(x for x in k if x[0] != var.idx)
+                groups.setdefault(rest, []).append(c)
+            if len(groups) == len(cur):
+                continue
+            new = {}
+            for rest, cs in groups.items():
+                if len(cs) == 1:
+                    c = cs[0]
+                else:
+                    d = frozenset()
+                    for c in cs:
+                        d |= c.get(var, var.full)
+                    c = dict(cs[0])
+                    if d == var.full:
+                        c.pop(var, None)
+                    else:
+                        c[var] = d
+                    changed = True
+                new[cube_key(c)] = c
+            cur = new
+    return list(cur.values())
 
 
 _DOMC = {}
@@ -57,8 +100,8 @@ def g_z3(n):
         if x.kind == "z3":
             x.z = x.a
             stack.pop()
-        elif x.kind == "dom":
-            x.z = dom_z3(x.a, x.b)
+        elif x.kind == "dd":
+            x.z = x.b.to_z3(x.a)
             stack.pop()
         elif x.kind == "and" or x.kind == "or":
             kids = x.a
@@ -90,11 +133,12 @@ class Engine:
         self.timeout = timeout
         self.merge_filter = None    # optional predicate(CodeInfo) -> bool : park at loop heads of this code?
         self.progress_fn = None
+        self.mdd = MDD()
         self.solver = z3.Solver()
         self.vars = []
         self.base = []              # global assumptions (domain constraints, harness assumptions)
         self.stats = dict(steps=0, forks=0, merges=0, parks=0, states=0, queries=0, solver_s=0.0, unsat=0, sat=0,
-                          unary_decisions=0, general_decisions=0, clones=0, max_worlds=0, worlds_finished=0)
+                          unary_decisions=0, general_decisions=0, clones=0, max_worlds=0, worlds_finished=0, max_cubes=1)
         self.codes_seen = {}
         self.I = Interp(self)
         self.cloner = Cloner(self)
@@ -189,9 +233,8 @@ class Engine:
     def gnode(self, W):
         """exact guard of a world as a lazy node (None = True)"""
         parts = [] if W.g is None else [W.g]
-        for var, dom in W.dom.items():
-            if W.dom_base.get(var) != dom:
-                parts.append(GNode("dom", var, dom))
+        if W.dd is not MDD_TRUE:
+            parts.append(GNode("dd", W.dd, self.mdd))
         if not parts:
             return None
         if len(parts) == 1:
@@ -244,16 +287,16 @@ class Engine:
         out = []
         if cond.var is not None:
             var = cond.var
-            cur = W.dom.get(var, var.full)
-            t, f = cur & cond.allowed, cur - cond.allowed
+            tc = self.mdd.restrict(W.dd, var, cond.mask)
+            fc = self.mdd.restrict(W.dd, var, cond.cmask)
             self.stats["unary_decisions"] += 1
-            if t and f:
+            if tc is not MDD_FALSE and fc is not MDD_FALSE:
                 W2 = self.cloner.clone_world(W)
                 self.stats["clones"] += 1
-                W.dom[var] = t
-                W2.dom[var] = f
+                W.dd = tc
+                W2.dd = fc
                 return [W, W2]
-            W.dom[var] = t or f   # (cannot happen: truth() would have answered)
+            W.dd = tc if tc is not MDD_FALSE else fc   # (cannot happen: truth() would have answered)
             return [W]
         self.stats["general_decisions"] += 1
         g = self.guard(W)
@@ -282,15 +325,13 @@ class Engine:
 
     def merge_into(self, A, B):
         """A := A or B (same state key)"""
-        ga, gb = self.gnode(A), self.gnode(B)
-        A.g = None if (ga is None or gb is None) else GNode("or", [ga, gb])
-        dom = {}
-        for var in set(A.dom) | set(B.dom):
-            d = A.dom.get(var, var.full) | B.dom.get(var, var.full)
-            if d != var.full:
-                dom[var] = d
-        A.dom = dom
-        A.dom_base = dict(dom)
+        if A.g is B.g:
+            A.dd = self.mdd.union(A.dd, B.dd)
+        else:
+            # different relational parts: the exact guard goes to g, dd keeps an over-approximation
+            ga, gb = self.gnode(A), self.gnode(B)
+            A.g = None if (ga is None or gb is None) else GNode("or", [ga, gb])
+            A.dd = self.mdd.union(A.dd, B.dd)
         A.decided = {k: v for k, v in A.decided.items() if B.decided.get(k) is v}
         A.steps = min(A.steps, B.steps)
         A.maxdepth = max(A.maxdepth, B.maxdepth)
